@@ -69,6 +69,15 @@ CHECKS = {
               "stream (remainder first, nothing repeated or skipped, never replayed by a later cycle); with ties only guesses of "
               "pre-terminals tied with a saved position may repeat. Exploration; every position of each generated run is enumerated."),
         design='4/C15'),
+    'C14': dict(
+        technique="Hypothesis property-based testing with a metamorphic oracle (flagged run vs. filtered/rescaled default run of the same real guesser) plus model-side all-lower language; flags through save/restore via the real main()",
+        text=("Generated rulesets with the Markov structure at any position, absent or alone, under all four flag combinations: the "
+              "skip_brute run must equal the default run minus Markov pre-terminals, same order modulo mathematically tied "
+              "probabilities, rescaled by 1/(1-P(Markov)) (identity without a Markov structure; nothing for Markov-only); "
+              "all_lower must load every mask variable as {L^n: 1.0} and leave every other variable unchanged, and produce the "
+              "model's all-lower language. A session started with flags and resumed with a plain --load must stay inside the "
+              "flagged run's pre-terminals and language. Exploration."),
+        design='4/C14'),
 }
 
 NOT_YET = "check not built yet in this round (design exists in DESIGN.md section 4); not claimed until it runs"
